@@ -5,9 +5,6 @@ import (
 	"fmt"
 	"hash/fnv"
 	"math/rand"
-	"os"
-	"path/filepath"
-	"regexp"
 	"runtime"
 	"sort"
 	"strings"
@@ -315,61 +312,6 @@ func (p *c18) Run(i int) (res fw.Result) {
 		}
 	}
 	return
-}
-
-var raceBlockRe = regexp.MustCompile(`(?s)WARNING: DATA RACE.*?==================`)
-var frameRe = regexp.MustCompile(`(?m)^  ([A-Za-z0-9_./*()\-]+)\(`)
-
-// Finish parses the race detector logs of the -race workers.
-func (p *c18) Finish(d *fw.DriverInfo) []fw.Violation {
-	files, _ := filepath.Glob(filepath.Join(d.WorkDir, "race.w*"))
-	var out []fw.Violation
-	seen := map[string]int{}
-	first := map[string]string{}
-	total := 0
-	for _, f := range files {
-		b, err := os.ReadFile(f)
-		if err != nil {
-			continue
-		}
-		for _, blk := range raceBlockRe.FindAllString(string(b), -1) {
-			total++
-			var fns []string
-			for _, m := range frameRe.FindAllStringSubmatch(blk, -1) {
-				fn := m[1]
-				if strings.Contains(fn, "tyler-sommer/stick") {
-					fns = append(fns, fn)
-				}
-			}
-			sig := "no-library-frame"
-			if len(fns) > 0 {
-				sort.Strings(fns)
-				sig = strings.Join(uniqStrings(fns), " ")
-			}
-			seen[sig]++
-			if _, ok := first[sig]; !ok {
-				first[sig] = blk
-			}
-		}
-	}
-	d.Obs["race_reports_total"] = int64(total)
-	d.Obs["race_reports_distinct"] = int64(len(seen))
-	d.Obs["race_log_files"] = int64(len(files))
-	var sigs []string
-	for s := range seen {
-		sigs = append(sigs, s)
-	}
-	sort.Strings(sigs)
-	for _, s := range sigs {
-		cls := "data-race"
-		if s == "no-library-frame" {
-			cls = "data-race-outside-library(harness)"
-		}
-		out = append(out, fw.Violation{Index: 0, Class: cls, Key: "c18:race:" + s,
-			Msg:    fmt.Sprintf("the race detector reported %d data race(s) involving: %s", seen[s], clip(s, 600)),
-			Detail: clip(first[s], 6000), Input: map[string]interface{}{"library_frames": s}})
-	}
-	return out
 }
 
 func (p *c18) Rule() string {
